@@ -315,6 +315,8 @@ func C13Configs(thorough bool) []*world.Config {
 	cfgs = append(cfgs, world.WithTwoSlots(world.UintCfg(2, ulist(1, 2, 3, 4), 1, B, "none"), 5))
 	cfgs = append(cfgs, world.WithTwoSlots(world.UintCfg(2, ulist(1, 2, 4), 1, M, "big"), 5))
 	cfgs = append(cfgs, world.WithFlushFaults(world.UintCfg(2, urange(1, 4), 1, B, "none")))
+	// two trees and failing flushes together: what a failed MakeRoot of one tree leaves behind must not be acted on by its clone
+	cfgs = append(cfgs, world.WithTwoSlots(world.WithFlushFaults(world.UintCfg(2, ulist(1, 2, 4), 1, B, "none")), 5))
 	cfgs = append(cfgs, world.WithFlushFaults(depth(world.UintCfg(2, urange(1, 4), 1, M, "big"), 6)))
 	cfgs = append(cfgs, world.UintCfg(2, ulist(1, 2, 4), 1, B, "big"))
 	cfgs = append(cfgs, depth(world.UintCfg(2, urange(1, 5), 1, M, "big"), 7))
